@@ -168,9 +168,11 @@ pub fn f_general(seed: u64, o: &GeneralOpts) -> Plan {
                             2 => StreamPolicy::ModAck(*rng.pick(&[12i32, 20])),
                             _ => StreamPolicy::AckAll,
                         };
-                        s.push(Step::after(rng.below(20_000), Op::StreamOpen { slot, sub: name.clone(), max_msgs: *rng.pick(&[0i64, 1, 3, 100]), max_bytes: 0, policy }));
+                        s.push(Step::after(rng.below(20_000), Op::StreamOpen { slot, sub: name.clone(), max_msgs: *rng.pick(&[0i64, 1, 3, 100]), max_bytes: 0, policy, window: 0, stall_after: 0, stall_us: 0 }));
                         if rng.chance(400) {
-                            s.push(Step::after(rng.range(1_000, 200_000), Op::StreamSend { slot, ack: sel_any(Pick::LastN(3)), modack: Sel::none(), modack_secs: 0, raw_sub: String::new(), raw_max_msgs: 0, raw_max_bytes: 0, extra_secs: vec![], secs_pattern: vec![] }));
+                            let stream_secs = *rng.pick(&[0i32, 0, 0, 30, 600]);
+                            let (modack, modack_secs) = if rng.chance(300) { (sel_mine(Pick::OldestN(1)), *rng.pick(&[20i32, 45])) } else { (Sel::none(), 0) };
+                            s.push(Step::after(rng.range(1_000, 200_000), Op::StreamSend { slot, ack: sel_any(Pick::LastN(3)), modack, modack_secs, raw_sub: String::new(), raw_max_msgs: 0, raw_max_bytes: 0, extra_secs: vec![], secs_pattern: vec![], stream_secs }));
                         }
                         if consumer_faults && rng.chance(300) {
                             s.push(Step::after(rng.range(1_000, 300_000), Op::StreamDrop { slot }));
@@ -408,10 +410,13 @@ pub fn f_consumers(seed: u64, cancel: bool) -> Plan {
                     let my = slot;
                     slot += 1;
                     let policy = if rng.chance(500) { StreamPolicy::Hold } else { StreamPolicy::AckAll };
-                    s.push(Step::after(rng.below(3) * rng.below(2_000), Op::StreamOpen { slot: my, sub: sub.clone(), max_msgs: *rng.pick(&[0i64, 1, 2]), max_bytes: 0, policy }));
+                    s.push(Step::after(rng.below(3) * rng.below(2_000), Op::StreamOpen { slot: my, sub: sub.clone(), max_msgs: *rng.pick(&[0i64, 1, 2]), max_bytes: 0, policy, window: 0, stall_after: 0, stall_us: 0 }));
                     if rng.chance(350) {
-                        // one frame mixing nacks and extensions for what this stream holds
-                        s.push(Step::after(rng.range(1, 4) * 1_000, Op::StreamSend { slot: my, ack: Sel::none(), modack: sel_mine(Pick::LastN(rng.range(2, 4) as u32)), modack_secs: 0, raw_sub: String::new(), raw_max_msgs: 0, raw_max_bytes: 0, extra_secs: vec![], secs_pattern: rng.pick(&[vec![0, 30], vec![30, 0], vec![0, 0, 20], vec![15, 0, 0]]).clone() }));
+                        // one frame mixing nacks and extensions for what this stream holds, some with
+                        // an acknowledgement of another delivery and a stream deadline update on top
+                        let ack = if rng.chance(400) { sel_mine(Pick::Nth(0)) } else { Sel::none() };
+                        let stream_secs = *rng.pick(&[0i32, 0, 0, 10, 60, 600]);
+                        s.push(Step::after(rng.range(1, 4) * 1_000, Op::StreamSend { slot: my, ack, modack: sel_mine(Pick::LastN(rng.range(2, 4) as u32)), modack_secs: 0, raw_sub: String::new(), raw_max_msgs: 0, raw_max_bytes: 0, extra_secs: vec![], secs_pattern: rng.pick(&[vec![0, 30], vec![30, 0], vec![0, 0, 20], vec![15, 0, 0], vec![30, 30], vec![25]]).clone(), stream_secs }));
                     } else if cancel && rng.chance(200) {
                         s.push(Step::after(rng.below(3) * rng.below(3_000), Op::StreamDrop { slot: my }));
                     }
@@ -477,7 +482,7 @@ pub fn f_delete(seed: u64, burst: bool) -> Plan {
     for _ in 0..rng.range(0, 3) {
         let my = slot;
         slot += 1;
-        let mut s = vec![Step::after(rng.below(2_000), Op::StreamOpen { slot: my, sub: victim.clone(), max_msgs: 0, max_bytes: 0, policy: if rng.chance(500) { StreamPolicy::AckAll } else { StreamPolicy::Hold } })];
+        let mut s = vec![Step::after(rng.below(2_000), Op::StreamOpen { slot: my, sub: victim.clone(), max_msgs: 0, max_bytes: 0, policy: if rng.chance(500) { StreamPolicy::AckAll } else { StreamPolicy::Hold }, window: 0, stall_after: 0, stall_us: 0 })];
         if rng.chance(500) {
             s.push(Step::after(rng.range(100, 3_000), Op::StreamCloseReq { slot: my }));
         }
@@ -1091,12 +1096,12 @@ pub fn f_hostile(seed: u64) -> Plan {
                 22 => {
                     let my = slot;
                     slot += 1;
-                    Op::StreamOpen { slot: my, sub: name, max_msgs: 0, max_bytes: 0, policy: StreamPolicy::Hold }
+                    Op::StreamOpen { slot: my, sub: name, max_msgs: 0, max_bytes: 0, policy: StreamPolicy::Hold, window: 0, stall_after: 0, stall_us: 0 }
                 }
                 23 => {
                     let my = slot;
                     slot += 1;
-                    Op::StreamOpen { slot: my, sub: sub2.clone(), max_msgs: *rng.pick(&[-1i64, 65536, i64::MAX, i64::MIN]), max_bytes: *rng.pick(&[0i64, -1, i64::MAX]), policy: StreamPolicy::Hold }
+                    Op::StreamOpen { slot: my, sub: sub2.clone(), max_msgs: *rng.pick(&[-1i64, 65536, i64::MAX, i64::MIN]), max_bytes: *rng.pick(&[0i64, -1, i64::MAX]), policy: StreamPolicy::Hold, window: 0, stall_after: 0, stall_us: 0 }
                 }
                 _ => Op::ModAck { sub: sub.clone(), sel: Sel { mine: false, pick: Pick::None, extra: vec![], ..Sel::none() }, secs: -5 },
             };
@@ -1108,16 +1113,16 @@ pub fn f_hostile(seed: u64) -> Plan {
     if rng.chance(600) {
         let my = slot;
         let hostile = match rng.below(7) {
-            0 => Op::StreamSend { slot: my, ack: Sel::none(), modack: Sel::none(), modack_secs: 0, raw_sub: sub2.clone(), raw_max_msgs: 0, raw_max_bytes: 0, extra_secs: vec![], secs_pattern: vec![] },
-            1 => Op::StreamSend { slot: my, ack: Sel::none(), modack: Sel::none(), modack_secs: 0, raw_sub: String::new(), raw_max_msgs: 5, raw_max_bytes: 0, extra_secs: vec![], secs_pattern: vec![] },
-            2 => Op::StreamSend { slot: my, ack: Sel::none(), modack: Sel::none(), modack_secs: 0, raw_sub: String::new(), raw_max_msgs: 0, raw_max_bytes: 9, extra_secs: vec![], secs_pattern: vec![] },
-            3 => Op::StreamSend { slot: my, ack: Sel::none(), modack: sel_any(Pick::LastN(1)), modack_secs: 20, raw_sub: String::new(), raw_max_msgs: 0, raw_max_bytes: 0, extra_secs: vec![30], secs_pattern: vec![] },
-            4 => Op::StreamSend { slot: my, ack: Sel { mine: false, pick: Pick::LastN(2), extra: vec![rng.pick(&bad_acks).clone()], ..Sel::none() }, modack: Sel::none(), modack_secs: 0, raw_sub: String::new(), raw_max_msgs: 0, raw_max_bytes: 0, extra_secs: vec![], secs_pattern: vec![] },
+            0 => Op::StreamSend { slot: my, ack: Sel::none(), modack: Sel::none(), modack_secs: 0, raw_sub: sub2.clone(), raw_max_msgs: 0, raw_max_bytes: 0, extra_secs: vec![], secs_pattern: vec![], stream_secs: 0 },
+            1 => Op::StreamSend { slot: my, ack: Sel::none(), modack: Sel::none(), modack_secs: 0, raw_sub: String::new(), raw_max_msgs: 5, raw_max_bytes: 0, extra_secs: vec![], secs_pattern: vec![], stream_secs: 0 },
+            2 => Op::StreamSend { slot: my, ack: Sel::none(), modack: Sel::none(), modack_secs: 0, raw_sub: String::new(), raw_max_msgs: 0, raw_max_bytes: 9, extra_secs: vec![], secs_pattern: vec![], stream_secs: 0 },
+            3 => Op::StreamSend { slot: my, ack: Sel::none(), modack: sel_any(Pick::LastN(1)), modack_secs: 20, raw_sub: String::new(), raw_max_msgs: 0, raw_max_bytes: 0, extra_secs: vec![30], secs_pattern: vec![], stream_secs: 0 },
+            4 => Op::StreamSend { slot: my, ack: Sel { mine: false, pick: Pick::LastN(2), extra: vec![rng.pick(&bad_acks).clone()], ..Sel::none() }, modack: Sel::none(), modack_secs: 0, raw_sub: String::new(), raw_max_msgs: 0, raw_max_bytes: 0, extra_secs: vec![], secs_pattern: vec![], stream_secs: 0 },
             // valid acks of what the stream holds together with a malformed modify entry: the frame is
             // rejected as a whole, so the acks must not be applied either
-            _ => Op::StreamSend { slot: my, ack: sel_mine(Pick::All), modack: Sel { mine: false, pick: Pick::None, extra: vec![rng.pick(&bad_acks).clone()], ..Sel::none() }, modack_secs: *rng.pick(&[0i32, 30]), raw_sub: String::new(), raw_max_msgs: 0, raw_max_bytes: 0, extra_secs: vec![], secs_pattern: vec![] },
+            _ => Op::StreamSend { slot: my, ack: sel_mine(Pick::All), modack: Sel { mine: false, pick: Pick::None, extra: vec![rng.pick(&bad_acks).clone()], ..Sel::none() }, modack_secs: *rng.pick(&[0i32, 30]), raw_sub: String::new(), raw_max_msgs: 0, raw_max_bytes: 0, extra_secs: vec![], secs_pattern: vec![], stream_secs: 0 },
         };
-        let mut st = vec![Step::new(Op::StreamOpen { slot: my, sub: sub2.clone(), max_msgs: 0, max_bytes: 0, policy: StreamPolicy::Hold }), Step::after(rng.range(1_000, 50_000), hostile)];
+        let mut st = vec![Step::new(Op::StreamOpen { slot: my, sub: sub2.clone(), max_msgs: 0, max_bytes: 0, policy: StreamPolicy::Hold, window: 0, stall_after: 0, stall_us: 0 }), Step::after(rng.range(1_000, 50_000), hostile)];
         // mark ack-id-hostile sends as hostile too (the harness flags raw_* and unequal lists itself)
         if let Op::StreamSend { ack, .. } = &st[1].op {
             if !ack.extra.is_empty() {
@@ -1214,7 +1219,7 @@ pub fn f_limits(seed: u64, allow_huge: bool) -> Plan {
     // a stream with a limit, then whatever is left
     let mut tail: Vec<Step> = Vec::new();
     let smax = *rng.pick(&[0i64, 1, 2, 1000, 65535, 65536, 70000]);
-    tail.push(Step::new(Op::StreamOpen { slot: 1, sub: sub.clone(), max_msgs: smax, max_bytes: 0, policy: StreamPolicy::Hold }));
+    tail.push(Step::new(Op::StreamOpen { slot: 1, sub: sub.clone(), max_msgs: smax, max_bytes: 0, policy: StreamPolicy::Hold, window: 0, stall_after: 0, stall_us: 0 }));
     tail.push(Step::after(200_000, Op::StreamDrop { slot: 1 }));
     plan.phases.push(Phase { scripts: vec![tail], advance_us: 11_500_000, audit: true });
     plan.phases.push(Phase { scripts: vec![vec![Step::new(Op::Pull { sub: sub.clone(), max: limit, immediate: true }), Step::new(Op::Pull { sub: sub.clone(), max: 1000, immediate: true })]], advance_us: 0, audit: false });
@@ -1245,7 +1250,7 @@ pub fn f_lease_parked(seed: u64) -> Plan {
     // a consumer parks ...
     let streaming = rng.chance(300);
     let park = if streaming {
-        Op::StreamOpen { slot: 1, sub: sub.clone(), max_msgs: *rng.pick(&[0i64, 10]), max_bytes: 0, policy: StreamPolicy::Hold }
+        Op::StreamOpen { slot: 1, sub: sub.clone(), max_msgs: *rng.pick(&[0i64, 10]), max_bytes: 0, policy: StreamPolicy::Hold, window: 0, stall_after: 0, stall_us: 0 }
     } else {
         Op::PullBg { slot: 1, sub: sub.clone(), max: *rng.pick(&[1i32, 10, 1000]) }
     };
@@ -1440,6 +1445,7 @@ pub fn f_consumers_saturated(seed: u64) -> Plan {
 pub fn f_lease_stream(seed: u64) -> Plan {
     let mut rng = Rng::new(seed);
     let mut plan = Plan { seed, family: "lease_stream".into(), final_drain: true, health_probe: false, ..Default::default() };
+    plan.tags.push("double_audit".into());
     plan.knobs = knobs(&mut rng, false, 0);
     let topic = topic_name("proj-z", 0);
     let sub = sub_name("proj-z", 0, 0);
@@ -1448,27 +1454,169 @@ pub fn f_lease_stream(seed: u64) -> Plan {
         scripts: vec![vec![
             Step::new(Op::CreateTopic { topic: topic.clone() }),
             Step::new(Op::CreateSub { sub: sub.clone(), topic: topic.clone(), ack_deadline: dl, push: None }),
-            Step::new(Op::StreamOpen { slot: 1, sub: sub.clone(), max_msgs: 0, max_bytes: 0, policy: StreamPolicy::Hold }),
+            Step::new(Op::StreamOpen { slot: 1, sub: sub.clone(), max_msgs: 0, max_bytes: 0, policy: StreamPolicy::Hold, window: 0, stall_after: 0, stall_us: 0 }),
         ]],
         advance_us: rng.below(3_000_000),
         audit: false,
     });
-    plan.phases.push(Phase { scripts: vec![vec![Step::new(Op::Publish { topic: topic.clone(), msgs: msgs_r(&mut rng, 1, 3, false) })]], advance_us: rng.below(2_000_000), audit: true });
+    plan.phases.push(Phase { scripts: vec![vec![Step::new(Op::Publish { topic: topic.clone(), msgs: msgs_r(&mut rng, 1, 4, false) })]], advance_us: rng.below(2_000_000), audit: true });
     // a sequence of control messages, each followed by a barrier (so it is certainly processed)
     // and a quiet period
-    let frame = |rng: &mut Rng, secs: i32| Op::StreamSend { slot: 1, ack: Sel::none(), modack: sel_any(rng.pick(&[Pick::All, Pick::LastN(1), Pick::Nth(0)]).clone()), modack_secs: secs, raw_sub: String::new(), raw_max_msgs: 0, raw_max_bytes: 0, extra_secs: vec![], secs_pattern: vec![] };
+    let frame = |rng: &mut Rng, secs: i32| {
+        // some frames also acknowledge another delivery and / or carry a stream deadline update
+        let modack = sel_any(rng.pick(&[Pick::All, Pick::LastN(1), Pick::Nth(0)]).clone());
+        let ack = if modack.pick == Pick::LastN(1) && rng.chance(400) { sel_any(Pick::Nth(0)) } else { Sel::none() };
+        Op::StreamSend { slot: 1, ack, modack, modack_secs: secs, raw_sub: String::new(), raw_max_msgs: 0, raw_max_bytes: 0, extra_secs: vec![], secs_pattern: vec![], stream_secs: *rng.pick(&[0i32, 0, 0, 10, 60, 600]) }
+    };
     let first = *rng.pick(&[30i32, 60, 120, 600]);
     plan.phases.push(Phase { scripts: vec![vec![Step::new(frame(&mut rng, first))]], advance_us: *rng.pick(&[5_000_000u64, 20_000_000, 40_000_000]).min(&((first as u64 - 5) * 1_000_000)), audit: true });
     for _ in 0..rng.range(1, 3) {
         let secs = *rng.pick(&[5i32, 15, 30, 60, 90, 600]);
         let quiet = *rng.pick(&[1_000_000u64, 4_000_000, 12_000_000, 25_000_000, 50_000_000]);
-        plan.phases.push(Phase { scripts: vec![vec![Step::new(frame(&mut rng, secs))]], advance_us: quiet, audit: true });
+        if rng.chance(350) {
+            // two control messages back to back for the same delivery: the later one must win
+            let other = *rng.pick(&[5i32, 20, 45, 120, 600]);
+            let a = Op::StreamSend { slot: 1, ack: if rng.chance(700) { sel_any(Pick::Nth(0)) } else { Sel::none() }, modack: sel_any(Pick::LastN(1)), modack_secs: other, raw_sub: String::new(), raw_max_msgs: 0, raw_max_bytes: 0, extra_secs: vec![], secs_pattern: vec![], stream_secs: 0 };
+            let b = Op::StreamSend { slot: 1, ack: Sel::none(), modack: sel_any(Pick::LastN(1)), modack_secs: secs, raw_sub: String::new(), raw_max_msgs: 0, raw_max_bytes: 0, extra_secs: vec![], secs_pattern: vec![], stream_secs: 0 };
+            plan.phases.push(Phase { scripts: vec![vec![Step::new(a), Step::new(b)]], advance_us: quiet, audit: true });
+        } else {
+            plan.phases.push(Phase { scripts: vec![vec![Step::new(frame(&mut rng, secs))]], advance_us: quiet, audit: true });
+        }
     }
     // an ack frame after a quiet period, then silence past every deadline
     if rng.chance(500) {
-        plan.phases.push(Phase { scripts: vec![vec![Step::new(Op::StreamSend { slot: 1, ack: sel_any(Pick::Nth(0)), modack: Sel::none(), modack_secs: 0, raw_sub: String::new(), raw_max_msgs: 0, raw_max_bytes: 0, extra_secs: vec![], secs_pattern: vec![] })]], advance_us: 0, audit: true });
+        plan.phases.push(Phase { scripts: vec![vec![Step::new(Op::StreamSend { slot: 1, ack: sel_any(Pick::Nth(0)), modack: Sel::none(), modack_secs: 0, raw_sub: String::new(), raw_max_msgs: 0, raw_max_bytes: 0, extra_secs: vec![], secs_pattern: vec![], stream_secs: *rng.pick(&[0i32, 0, 30]) })]], advance_us: 0, audit: true });
     }
     plan.phases.push(Phase { scripts: vec![], advance_us: *rng.pick(&[0u64, 30_000_000, 700_000_000]), audit: true });
+    plan.phases.push(Phase { scripts: vec![], advance_us: 0, audit: true });
+    plan
+}
+
+// ------------------------------------------------------------------------------------------------
+// F-stalled: a slow consumer. One StreamingPull client stops reading its responses (its response
+// pipe - the HTTP/2 window - fills up and the handler stays suspended where it yields), while
+// other consumers wait on the same subscription and messages become available.
+// ------------------------------------------------------------------------------------------------
+
+pub fn f_stalled(seed: u64) -> Plan {
+    let mut rng = Rng::new(seed);
+    let mut plan = Plan { seed, family: "stalled".into(), final_drain: true, health_probe: true, ..Default::default() };
+    plan.tags.push("double_audit".into());
+    plan.knobs = knobs(&mut rng, false, 0);
+    let topic = topic_name("proj-w", 0);
+    let sub = sub_name("proj-w", 0, 0);
+    let dl = *rng.pick(&[10i32, 60, 600, 600]);
+    let window = rng.range(1, 3) as u32;
+    let stall_after = rng.below(2) as u32;
+    let stall_us = *rng.pick(&[30_000_000u64, 90_000_000, 200_000_000]);
+    let policy = if rng.chance(500) { StreamPolicy::Hold } else { StreamPolicy::AckAll };
+    plan.phases.push(Phase {
+        scripts: vec![vec![
+            Step::new(Op::CreateTopic { topic: topic.clone() }),
+            Step::new(Op::CreateSub { sub: sub.clone(), topic: topic.clone(), ack_deadline: dl, push: None }),
+            Step::new(Op::StreamOpen { slot: 1, sub: sub.clone(), max_msgs: *rng.pick(&[0i64, 0, 1]), max_bytes: 0, policy, window, stall_after, stall_us }),
+        ]],
+        advance_us: rng.below(100_000),
+        audit: false,
+    });
+    // fill the pipe: one response per Publish
+    let n_fill = window + stall_after + rng.below(2) as u32;
+    let mut fill = Vec::new();
+    for _ in 0..n_fill {
+        fill.push(Step::after(rng.range(1, 6) * 1_000, Op::Publish { topic: topic.clone(), msgs: msgs_r(&mut rng, 1, 2, false) }));
+    }
+    plan.phases.push(Phase { scripts: vec![fill], advance_us: rng.below(50_000), audit: true });
+    // the others arrive and wait
+    let mut scripts = Vec::new();
+    let mut slot = 2u32;
+    for _ in 0..rng.range(1, 3) {
+        if rng.chance(650) {
+            scripts.push(vec![Step::after(rng.below(3_000), Op::PullBg { slot, sub: sub.clone(), max: *rng.pick(&[1i32, 10, 1000]) })]);
+        } else {
+            scripts.push(vec![Step::after(rng.below(3_000), Op::StreamOpen { slot, sub: sub.clone(), max_msgs: 0, max_bytes: 0, policy: if rng.chance(500) { StreamPolicy::Hold } else { StreamPolicy::AckAll }, window: 0, stall_after: 0, stall_us: 0 })]);
+        }
+        slot += 1;
+    }
+    plan.phases.push(Phase { scripts, advance_us: rng.below(50_000), audit: true });
+    // messages become available while the slow client is still not reading
+    for _ in 0..rng.range(1, 3) {
+        let mut scripts = Vec::new();
+        match rng.below(4) {
+            0 | 1 | 2 => scripts.push(vec![Step::after(rng.below(3_000), Op::Publish { topic: topic.clone(), msgs: msgs_r(&mut rng, 1, 2, false) })]),
+            _ => scripts.push(vec![Step::after(rng.below(3_000), Op::ModAck { sub: sub.clone(), sel: sel_any(Pick::LastN(1)), secs: 0 })]),
+        }
+        if rng.chance(300) {
+            scripts.push(vec![Step::after(rng.below(3_000), Op::PullBg { slot, sub: sub.clone(), max: 1 })]);
+            slot += 1;
+        }
+        plan.phases.push(Phase { scripts, advance_us: *rng.pick(&[0u64, 0, 2_000_000, (dl as u64) * 1_000_000 + 500_000]), audit: true });
+        plan.phases.push(Phase { scripts: vec![], advance_us: 0, audit: true });
+    }
+    // the slow client resumes
+    plan.phases.push(Phase { scripts: vec![], advance_us: stall_us, audit: true });
+    plan.phases.push(Phase { scripts: vec![vec![Step::new(Op::Publish { topic: topic.clone(), msgs: msgs_r(&mut rng, 1, 2, false) })]], advance_us: 0, audit: true });
+    plan
+}
+
+// ------------------------------------------------------------------------------------------------
+// F-edge: a request that reaches the subscription at the very instant a lease runs out (the
+// actor's expiry timer and its mailbox become ready in the same wake-up), with a consumer waiting.
+// ------------------------------------------------------------------------------------------------
+
+pub fn f_edge(seed: u64) -> Plan {
+    let mut rng = Rng::new(seed);
+    let mut plan = Plan { seed, family: "edge".into(), final_drain: true, health_probe: false, ..Default::default() };
+    plan.tags.push("double_audit".into());
+    plan.knobs = knobs(&mut rng, false, 0);
+    let topic = topic_name("proj-e", 0);
+    let sub = sub_name("proj-e", 0, 0);
+    let dl = *rng.pick(&[10i32, 10, 12, 20]);
+    plan.phases.push(Phase {
+        scripts: vec![vec![
+            Step::new(Op::CreateTopic { topic: topic.clone() }),
+            Step::new(Op::CreateSub { sub: sub.clone(), topic: topic.clone(), ack_deadline: dl, push: None }),
+            Step::new(Op::Publish { topic: topic.clone(), msgs: msgs_r(&mut rng, 2, 3, false) }),
+        ]],
+        advance_us: rng.below(500_000),
+        audit: false,
+    });
+    // the first delivery, and some seconds later a second one (another message, a later lease end)
+    plan.phases.push(Phase {
+        scripts: vec![vec![
+            Step::new(Op::Pull { sub: sub.clone(), max: 1, immediate: true }),
+            Step::after(rng.range(1, 6) * 1_000_000, Op::Pull { sub: sub.clone(), max: 1, immediate: true }),
+        ]],
+        advance_us: 0,
+        audit: false,
+    });
+    let mut scripts = Vec::new();
+    let mut slot = 1u32;
+    for _ in 0..rng.range(1, 2) {
+        if rng.chance(700) {
+            scripts.push(vec![Step::new(Op::PullBg { slot, sub: sub.clone(), max: *rng.pick(&[1i32, 1000]) })]);
+        } else {
+            scripts.push(vec![Step::new(Op::StreamOpen { slot, sub: sub.clone(), max_msgs: 0, max_bytes: 0, policy: StreamPolicy::Hold, window: 0, stall_after: 0, stall_us: 0 })]);
+        }
+        slot += 1;
+    }
+    // the request that arrives when the first lease ends
+    let offset = *rng.pick(&[0i64, 0, 0, 0, -1, 1, -1_000, 1_000, 999, -999]);
+    let op = match rng.below(8) {
+        0 | 1 | 2 => Op::Ack { sub: sub.clone(), sel: sel_any(Pick::Nth(1)) },
+        3 => Op::ModAck { sub: sub.clone(), sel: sel_any(Pick::Nth(1)), secs: *rng.pick(&[0i32, 30]) },
+        4 => Op::Ack { sub: sub.clone(), sel: sel_any(Pick::Nth(0)) },
+        5 => Op::ModAck { sub: sub.clone(), sel: sel_any(Pick::Nth(0)), secs: *rng.pick(&[0i32, 20]) },
+        6 => Op::Ack { sub: sub.clone(), sel: Sel { mine: false, pick: Pick::None, extra: vec!["515151".into()], ..Sel::none() } },
+        _ => Op::Publish { topic: topic.clone(), msgs: msgs(&mut rng, 1, false) },
+    };
+    let mut edge = vec![Step::new(Op::SleepUntilLeaseEnd { sub: sub.clone(), nth: 0, secs: dl, offset_us: offset }), Step::new(op)];
+    if rng.chance(300) {
+        edge.push(Step::new(Op::Ack { sub: sub.clone(), sel: Sel { mine: false, pick: Pick::None, extra: vec!["515152".into()], ..Sel::none() } }));
+    }
+    scripts.push(edge);
+    plan.phases.push(Phase { scripts, advance_us: 0, audit: true });
+    plan.phases.push(Phase { scripts: vec![], advance_us: *rng.pick(&[0u64, 7_000_000, 30_000_000]), audit: true });
+    plan.phases.push(Phase { scripts: vec![], advance_us: 0, audit: true });
     plan
 }
 
